@@ -40,6 +40,7 @@ Section Agree.
   Theorem agree_atomic : P_atomic k = true.
   Proof.
     unfold P_atomic. fold init. apply forallb_forall. intros s Hs. apply forallb_forall. intros n Hn.
+    unfold obs_names in Hn. apply filter_In in Hn as [Hn _].
     apply states_prefix in Hs as (p & Hp & ->). rewrite Hplan in Hp.
     rewrite (Hafter n Hn), Hplan.
     destruct (final_state c init outs G) as (A & B & C & D & _).
@@ -59,6 +60,7 @@ Section Agree.
   Theorem agree_stable : P_stable k = true.
   Proof.
     unfold P_stable. fold init. apply forallb_forall. intros s Hs. apply forallb_forall. intros n Hn.
+    unfold obs_names in Hn. apply filter_In in Hn as [Hn _].
     apply states_prefix in Hs as (p & [r Hr] & ->).
     destruct (lookup n (dir (exec init p))) as [i|] eqn:L; [|reflexivity].
     rewrite Hr. apply String.eqb_eq. symmetry.
